@@ -2,29 +2,17 @@
   Property C04 — CLI file-mode exit code equals the documented comparison semantics.
   Only property theorems live here; helper lemmas are in FcProofs/Lemmas/Cli.lean.
 
-  Model:  `Fc.Cli.fileMode`      (FcModel/Cli.lean — `_parse_field_tolerances`, `FieldToleranceMap`,
+  Model:  `Fc.C04.fileMode`      (FcModel/Cli.lean — `_parse_field_tolerances`, `FieldToleranceMap`,
                                   `find_matches`, `_filter_matches`, `_select_predicate`, `_parse_status`,
                                   `TestSuite.__bool__`, `_compare_field_data`, `_compare_field_sequences`,
                                   `FileComparison.__call__`, `_run`, `_bool_to_exit_code`)
-  Spec:   `Fc.Cli.Spec.exitZero` (FcModel/Spec/C04.lean — declarative)
+  Spec:   `Fc.C04.Spec.exitZero` (FcModel/Spec/C04.lean — declarative)
   The numeric verdict of one field is the cluster-A model `Fc.defaultCheck` (C01 / C09).
 -/
 import FcProofs.Lemmas.Cli
 import FcProofs.Props.C01
 namespace Fc
-open Fc.Cli
-
-/-- the pairs of data sets a scenario compares -/
-def Cli.Scenario.pairs (s : Scenario) : List PairData :=
-  match s.payload with
-  | .single p => [p]
-  | .seqs _ _ steps => steps
-  | .mixed => []
-
-/-- hypothesis of the C04 theorems: within each data set the field names are pairwise different
-    (true for every file the readers produce: tables and mesh files are keyed by name) -/
-def Cli.Scenario.NamesNodup (s : Scenario) : Prop :=
-  ∀ p ∈ s.pairs, (fnames p.res).Nodup ∧ (fnames p.ref).Nodup
+open Fc.C04
 
 /-- **C04 (exit 0 iff the documented semantics hold).**  For every scenario — all option token
     lists, all field sets on either side, all values, all read outcomes, single data sets and
